@@ -19,7 +19,7 @@ CHECKS = {
             "lookup, file open/read/merge/write/sync and registry update (C05.R1); no other function writes files or looks at the registry and no "
             "other process-wide state exists (C05.R2); re-export of a recorded type is a no-op by dominance of the `contains` guard (C05.R3); "
             "imports are accumulated in BTreeMap/BTreeSet and no hash- or visit-ordered sequence reaches the buffer (C05.R4); no panic-capable call "
-            "runs under the lock (C05.R5, known finding: merge()). Byte-for-byte confluence of the textual merge over all declaration texts and "
+            "runs under the lock (C05.R5; merge() repaired by d83e876); writer/reader agreement of the import line, markers and DECLARATION_START (R6); declaration blocks never stored in keyed collections nor matched start-anchored (R7); both sort keys derived alike (R8). Byte-for-byte confluence of the textual merge over all declaration texts and "
             "orders is a statement about run-time strings and is NOT decided."),
     "C06": ("DESIGN.md section 3/C06",
             "interprocedural value-origin analysis and dominance on MIR",
@@ -32,8 +32,8 @@ CHECKS = {
             "Decides: ts and serde arms of a shared key call the same value parser and set the same field (R1); documented serde keys are present "
             "(R2); ts wins in every merge and from_attrs passes the ts value as receiver (R3); serde parsing is feature-gated (R4, thorough: dead "
             "under --no-default-features); the unknown-key fallback always skips and never errors, and keys are read with parse_any (R5); no arm "
-            "consumes `=` twice (R6); value forms serde accepts are accepted or recovered (R7, known findings: the `key(serialize=..)` forms); the "
-            "skip loop tests the token it skips (R8); no unjustified panic on the serde path (R9). Equality of bindings for all types under the two "
+            "consumes `=` twice (R6); value forms serde accepts are accepted or recovered per key (R7; repaired by e6989d5); every "
+            "token-skipping loop tests the token it skips, before advancing (R8); no unjustified panic on the serde path (R9). Equality of bindings for all types under the two "
             "spellings is NOT decided beyond these table/merge facts."),
     "C11": ("DESIGN.md section 3/C11",
             "who-may-call, call-graph edge and must-pass-through analysis on MIR",
@@ -54,8 +54,8 @@ CHECKS = {
     "C17": ("DESIGN.md section 3/C17",
             "error-discipline, dominance and panic-site analysis on MIR of the export path",
             "Decides: every fallible call on the export path is propagated (R1); registry insertions are dominated by successful write and sync "
-            "(R2); panic-capable sites reachable from the four export entry points are justified (R3, known findings: merge()); exportability is "
-            "checked before export_to/decl() (R4); no panic under the registry lock (R5, known finding); the recursive error is returned (R6). "
+            "(R2); panic-capable sites reachable from the four export entry points are justified (R3; merge() repaired by d83e876); exportability is "
+            "checked before export_to/decl() (R4); no panic under the registry lock (R5); the recursive error is returned (R6). "
             "That the directory after a retry equals the fault-free one is NOT decided."),
 }
 
